@@ -107,4 +107,173 @@ theorem isShut_runS (s : GS) (ops : List SOp) (j : Nat) (h : isShut s j = true) 
 theorem stepS_inc_stopped (s : GS) (q : Nat) (h : isShut s q = true) : stepS s (.base (.inc q)) = s := by
   simp [stepS, h]
 
+/-! ## a stopped pool only drains -/
+
+theorem isPoolAt_set (t : Tree) (i j : Nat) (n : Node) (v : Nat) (h : t[i]? = some n) :
+    isPoolAt (t.set i { n with value := v }) j = isPoolAt t j := by
+  unfold isPoolAt
+  by_cases hj : j = i
+  · subst hj
+    have hlt := Hive.WP.lt_of_get h
+    have he : t[j] = n := by rw [List.getElem?_eq_getElem hlt] at h; exact Option.some.inj h
+    simp [List.getElem?_set, hlt, h]
+    rw [he]
+  · simp [List.getElem?_set, hj, Ne.symm hj]
+
+theorem pool_not_group {t : Tree} {j : Nat} (h : isPoolAt t j = true) : isGroup t j = false := by
+  unfold isPoolAt at h; unfold isGroup
+  cases hh : t[j]? with
+  | none => rfl
+  | some n => simp [hh] at h ⊢; exact h
+
+theorem isPoolAt_lt {t : Tree} {j : Nat} (h : isPoolAt t j = true) : j < t.length := by
+  unfold isPoolAt at h
+  rcases Nat.lt_or_ge j t.length with h' | h'
+  · exact h'
+  · simp [List.getElem?_eq_none h'] at h
+
+/-- One unfolding of `bump`: the node is updated, and the chain either ends there or goes on at the parent. -/
+theorem bump_cases (fuel : Nat) (t : Tree) (i : Nat) (up : Bool) (n : Node) (h : t[i]? = some n) :
+    bump (fuel + 1) t i up = t.set i { n with value := if up then n.value + 1 else n.value - 1 } ∨
+    ∃ g b, n.parent = some g ∧
+      bump (fuel + 1) t i up = bump fuel (t.set i { n with value := if up then n.value + 1 else n.value - 1 }) g b := by
+  obtain ⟨par, isP, v0⟩ := n
+  simp only [bump, h]
+  cases par with
+  | none => left; rfl
+  | some g =>
+    simp only
+    by_cases hz : v0 = 0
+    · right; exact ⟨g, true, rfl, by simp only [hz, if_true]⟩
+    · by_cases hnz : (if up = true then v0 + 1 else v0 - 1) = 0
+      · right; exact ⟨g, false, rfl, by simp only [hz, hnz, if_true, if_false]⟩
+      · left; simp only [hz, hnz, if_false]
+
+theorem isPoolAt_bump (fuel : Nat) : ∀ (t : Tree) (i : Nat) (up : Bool) (j : Nat),
+    isPoolAt (bump fuel t i up) j = isPoolAt t j := by
+  induction fuel with
+  | zero => intro t i up j; rfl
+  | succ fuel ih =>
+    intro t i up j
+    cases hget : t[i]? with
+    | none => simp [bump, hget]
+    | some n =>
+      have hs := isPoolAt_set t i j n (if up then n.value + 1 else n.value - 1) hget
+      rcases bump_cases fuel t i up n hget with e | ⟨g, b, _, e⟩
+      · rw [e]; exact hs
+      · rw [e, ih]; exact hs
+
+/-- `Counter.Update` at node `i` with its subscriber chain never touches another POOL: the chain runs through the
+parents, which are groups. -/
+theorem bump_val_pool (fuel : Nat) : ∀ (t : Tree) (i : Nat) (up : Bool) (j : Nat), WF t → isPoolAt t j = true → j ≠ i →
+    val (bump fuel t i up) j = val t j := by
+  induction fuel with
+  | zero => intro t i up j _ _ _; rfl
+  | succ fuel ih =>
+    intro t i up j w hj hne
+    cases hget : t[i]? with
+    | none => simp [bump, hget]
+    | some n =>
+      have hv : val (t.set i { n with value := if up then n.value + 1 else n.value - 1 }) j = val t j := by
+        rw [val_set t i j n _ hget]; simp [hne]
+      have w' := wf_set t i n (if up then n.value + 1 else n.value - 1) hget w
+      have hj' := (isPoolAt_set t i j n (if up then n.value + 1 else n.value - 1) hget).trans hj
+      rcases bump_cases fuel t i up n hget with e | ⟨g, b, hp, e⟩
+      · rw [e]; exact hv
+      · have hg := (w.par i n g hget hp).2
+        have hgj : j ≠ g := by
+          intro e'; subst e'
+          rw [pool_not_group hj] at hg; cases hg
+        rw [e, ih _ g b j w' hj' hgj]; exact hv
+
+/-- The pool's own counter after its `Update(±1)`. -/
+theorem bump_val_self (fuel : Nat) (t : Tree) (i : Nat) (up : Bool) (w : WF t) (hi : isPoolAt t i = true) :
+    val (bump (fuel + 1) t i up) i = if up then val t i + 1 else val t i - 1 := by
+  have hlt := isPoolAt_lt hi
+  have hget : t[i]? = some t[i] := List.getElem?_eq_getElem hlt
+  generalize hn : t[i] = n at hget
+  have hv0 : val t i = n.value := val_eq t i _ hget
+  have hv : val (t.set i { n with value := if up then n.value + 1 else n.value - 1 }) i =
+      if up then n.value + 1 else n.value - 1 := by
+    rw [val_set t i i n _ hget]; simp
+  have w' := wf_set t i n (if up then n.value + 1 else n.value - 1) hget w
+  have hi' := (isPoolAt_set t i i n (if up then n.value + 1 else n.value - 1) hget).trans hi
+  rw [hv0]
+  rcases bump_cases fuel t i up n hget with e | ⟨g, b, hp, e⟩
+  · rw [e]; exact hv
+  · have hg := (w.par i n g hget hp).2
+    have hgi : i ≠ g := by
+      intro e'
+      have h2 := hg
+      rw [← e', pool_not_group hi] at h2; cases h2
+    rw [e, bump_val_pool fuel _ g b i w' hi' hgi]; exact hv
+
+theorem val_append_left (t : Tree) (x : Node) (j : Nat) (h : j < t.length) : val (t ++ [x]) j = val t j := by
+  simp [val, List.getElem?_append_left h]
+
+theorem isPoolAt_append_left (t : Tree) (x : Node) (j : Nat) (h : j < t.length) :
+    isPoolAt (t ++ [x]) j = isPoolAt t j := by
+  simp [isPoolAt, List.getElem?_append_left h]
+
+theorem isPoolAt_stepS (s : GS) (op : SOp) (q : Nat) (hq : isPoolAt s.tree q = true) :
+    isPoolAt (stepS s op).tree q = true := by
+  have hlt := isPoolAt_lt hq
+  cases op with
+  | base o =>
+    cases o with
+    | inc q' =>
+      simp only [stepS]
+      split
+      · exact hq
+      · simp only [step]; rw [isPoolAt_bump]; exact hq
+    | dec q' => simp only [stepS, step]; rw [isPoolAt_bump]; exact hq
+    | newGroup p => simp only [stepS, step]; rw [isPoolAt_append_left _ _ _ hlt]; exact hq
+    | newPool g => simp only [stepS, step]; rw [isPoolAt_append_left _ _ _ hlt]; exact hq
+  | flag g => exact hq
+  | stop q' => exact hq
+  | shutdown g => simp only [stepS, shutdownAll_tree]; exact hq
+
+/-- One step never increases the counter of a stopped pool. -/
+theorem val_stepS_stopped (s : GS) (op : SOp) (q : Nat) (h : Inv s.tree) (hq : isPoolAt s.tree q = true)
+    (hs : isShut s q = true) : val (stepS s op).tree q ≤ val s.tree q := by
+  have hlt := isPoolAt_lt hq
+  cases op with
+  | base o =>
+    cases o with
+    | inc q' =>
+      simp only [stepS]
+      split
+      · exact Nat.le_refl _
+      · rename_i hns
+        have hne : q ≠ q' := by intro e; subst e; exact hns hs
+        simp only [step]
+        rw [bump_val_pool _ _ _ _ _ h.wf hq hne]
+        exact Nat.le_refl _
+    | dec q' =>
+      simp only [stepS, step]
+      by_cases hne : q = q'
+      · subst hne
+        rw [bump_val_self _ _ _ _ h.wf hq]
+        simp
+      · rw [bump_val_pool _ _ _ _ _ h.wf hq hne]
+        exact Nat.le_refl _
+    | newGroup p => simp only [stepS, step]; rw [val_append_left _ _ _ hlt]; exact Nat.le_refl _
+    | newPool g => simp only [stepS, step]; rw [val_append_left _ _ _ hlt]; exact Nat.le_refl _
+  | flag g => exact Nat.le_refl _
+  | stop q' => exact Nat.le_refl _
+  | shutdown g => simp only [stepS, shutdownAll_tree]; exact Nat.le_refl _
+
+theorem val_runS_stopped (s : GS) (ops : List SOp) (q : Nat) (h : Inv s.tree) (hq : isPoolAt s.tree q = true)
+    (hs : isShut s q = true) : val (runS s ops).tree q ≤ val s.tree q := by
+  induction ops generalizing s with
+  | nil => exact Nat.le_refl _
+  | cons op ops ih =>
+    simp only [runS]
+    split
+    · rename_i hok
+      exact Nat.le_trans
+        (ih _ (inv_stepS s op h hok) (isPoolAt_stepS s op q hq) (isShut_stepS s op q hs))
+        (val_stepS_stopped s op q h hq hs)
+    · exact ih _ h hq hs
+
 end Hive.WPG
